@@ -272,6 +272,20 @@ example : (match runStepsShared (⟨⟨"CCD", (3, 4), fun _ => none⟩, none, fa
     | .ok w => w.run.store "photon"
     | .error _ => some 0) = none := by decide
 
+-- the state after the load is *exactly* the file's: a container that is uninitialised in the file is
+-- uninitialised afterwards, whatever the running detector held (`next_model_sees_loaded_state`); the
+-- variant that skips the file's empty containers (seeded defect C18-4) keeps stale data instead
+example : (match runSteps runStep (⟨"CCD", (3, 4), fun _ => none⟩ : Running Nat)
+      [.write "photon" (some 1), .write "image" (some 2),
+       .load "CCD" (3, 4) (fun k => if k = "photon" then some 7 else none)] with
+    | .ok r => (r.store "photon", r.store "image")
+    | .error _ => (none, none)) = (some 7, none) := by decide
+example : (match runSteps runStepSkipEmpty (⟨"CCD", (3, 4), fun _ => none⟩ : Running Nat)
+      [.write "photon" (some 1), .write "image" (some 2),
+       .load "CCD" (3, 4) (fun k => if k = "photon" then some 7 else none)] with
+    | .ok r => (r.store "photon", r.store "image")
+    | .error _ => (none, none)) = (some 7, some 2) := by decide
+
 /-- a stored detector of another type or another shape is refused -/
 theorem load_mismatch_rejected (r : Running P) (ty : String) (shape : Nat × Nat) (file : Store P) :
     (ty ≠ r.ty → runStep r (.load ty shape file) = .error "TypeError") ∧
